@@ -41,8 +41,12 @@ CONFIG_FLAGS = {
     # a 32-bit build of the same release code (GOARCH=386; such binaries run natively here): int and uintptr are 32 bits
     # wide, 64-bit atomics need 8-byte alignment that the compiler does not provide for them
     "rel32": ["-tags", "verif"],
+    # the release build in a process that STARTS with one P (GOMAXPROCS=1 in the environment, as in a one-CPU container):
+    # what package initialisation sizes by runtime.GOMAXPROCS(0) is sized for one
+    "rel1p": ["-tags", "verif"],
 }
 CONFIG_ENV = {"rel32": {"GOARCH": "386", "CGO_ENABLED": "0"}}
+CONFIG_RUN_ENV = {"rel1p": {"GOMAXPROCS": "1"}}
 
 
 def log(*a):
@@ -192,6 +196,7 @@ def worker_cmd(binary, spec, prop, tier, seed, config, batch, nbatch, out, journ
 def child_env(spec, config, racebase):
     env = dict(os.environ)
     env.update(spec.get("env", {}))
+    env.update(CONFIG_RUN_ENV.get(config, {}))
     if config.startswith("race"):
         env["GORACE"] = "halt_on_error=0 log_path=%s" % racebase
     return env
@@ -545,7 +550,7 @@ def do_setup():
     workdir = os.path.join(BUILD, "setup-%d" % os.getpid())
     os.makedirs(workdir, exist_ok=True)
     ok = True
-    for cfgname in ("rel", "dbg", "race", "racedbg", "rel32"):
+    for cfgname in ("rel", "dbg", "race", "racedbg", "rel32", "rel1p"):
         ok = (build_worker(cfgname, workdir) is not None) and ok
     shutil.rmtree(workdir, ignore_errors=True)
     return 0 if ok else 3
